@@ -20,12 +20,13 @@ from pmc.ref import lexer as L
 ID = 'C19'
 TITLE = 'Triple-conjunction notation round-trips'
 SOURCES = ['a', 'b1', '_x']
-ROLES = [':instance', ':ARG0', ':op1', ':ARG0-of']
+ROLES = [':instance', ':ARG0', ':op1', ':ARG0-of', 'ARG0']     # the last one is given without its colon: it must come back with it
 SYMBOLS = ['b', '7', '-1.5', '1,000', ',x', '^', '^y', 'a^b', '-']
 SIGMA = ['"', '\\', 'a', ' ', '(', ')', ':', '~', '/', ',', '^', '#', '\u00e9', '\t', '\u2028']
 RULE = ('complete product of sources x roles x targets (symbols and all quoted strings up to the length bound) and of short lists; '
         'non-trivial = target is a quoted string or the list has more than one triple')
 ASSUMPTIONS = [
+    'a role given without its leading colon is in the domain (it must come back with the colon); roles with several leading colons are not',
     'sources containing a comma cannot be written (the comma is the separator) and are excluded; targets None and the anonymous role cannot be expressed in the notation',
     'quoted strings escape only the quote and the backslash; characters that would need other escapes (line breaks, controls) are produced via penman.constant.quote in C18, not here',
 ]
@@ -103,9 +104,11 @@ def check(case, ctx):
         ts = [tuple(x) for x in case['ts']]
     if not ts:
         return
+    given = ts
+    ts = [(s, r if r.startswith(':') else ':' + r, t) for s, r, t in given]      # every role comes back carrying its colon
     for indent in (True, False):
         try:
-            s = penman.format_triples(ts, indent=indent)
+            s = penman.format_triples(given, indent=indent)
             back = penman.parse_triples(s)
         except Exception as e:      # noqa: BLE001
             ctx.fail(f'format_triples/parse_triples raised {type(e).__name__} (indent={indent})', observed=str(e)[:300], expected=ts)
